@@ -4,8 +4,11 @@ import CharsetProof.Lemmas.EntryFacts
 import CharsetProof.Props.C13
 import CharsetProof.Props.C13f
 import CharsetProof.Props.C13g
+import CharsetProof.Props.C13h
 open Charset
 #print axioms C13_chaos_is_mess_ratio_full
+#print axioms C13_chaos_is_mess_ratio_full_all_sizes
+#print axioms chaosOfText_full_eq
 #print axioms meanRatio_single
 #print axioms C13_chaos_of_text_all_sizes
 #print axioms C13_chaos_of_text_current
